@@ -21,6 +21,7 @@ import TantivyModel.Proofs.DocSet.BufferedUnionScoreDanger
 import TantivyModel.Proofs.DocSet.ScoreCompose
 import TantivyModel.Proofs.DocSet.TinySetBridge
 import TantivyModel.Proofs.DocSet.TreeScore1
+import TantivyModel.Proofs.DocSet.TreeScore2
 import TantivyModel.Model.DocSet.Tree
 /-!
 # C13 — every DocSet is one sorted sequence under any mix of advance and seek
@@ -813,6 +814,32 @@ theorem C13_tree1_exclude_score (fx : Fix) (tu : Tree) (tes : List Tree) (lu : L
           ((levelDS fx 1).score (implFinal (levelDS fx 1) s prog)).1 = scoreOf tu) :=
   tree1_excl_score fx tu tes lu les hu0 he0 prog hl hnc hnd
 
+/-! ### nesting depth 2 on the driver's model: conjunction of disjunctions -/
+
+/-- erasing ghost data (any map `ψ` commuting with the methods a parent uses, `Hom`) commutes with every
+method of the intersection: the step that carries the score theorems from the ghost-paired scorer
+types to the driver's plain states, for `Intersection` parents -/
+theorem C13_intersection_erasure {σ' σ : Type} {C' : DS σ'} {C : DS σ} {ψ : σ' → σ} (h : Hom C' C ψ) (fx : Fix) :
+    Hom (Inter.ds C' fx) (Inter.ds C fx) (Inter.State.map ψ) := Inter.hom h fx
+
+/-- **Intersection of SUM unions of leaves (`+(a b …) +(c d …) …`), two levels, on the model the driver
+builds and runs.** `buildTree` at depth 2 succeeds and, after every legal call program without
+`count` / `fill_buffer`, outside danger zones, the scorer sits on the specification's document and
+`score()` is the sum over the unions of the scores of their leaves containing the document. The inner
+unions are driven by the intersection through seek / seek_danger (danger zones included). -/
+theorem C13_tree2_intersection_of_unions_score (fx : Fix) (dense : Bool) (g1 g2 : Group) (gs : List Group)
+    (h1 : GroupOK g1) (h2 : GroupOK g2) (hs : ∀ g ∈ gs, GroupOK g) (prog : List Op)
+    (hl : legalProg ⟨Inter.Common g1.2.2 g2.2.2 (gs.map (·.2.2)), none⟩ prog = true)
+    (hnc : ∀ op ∈ prog, op ≠ Op.count) (hnf : noFill prog)
+    (hnd : (specFinal ⟨Inter.Common g1.2.2 g2.2.2 (gs.map (·.2.2)), none⟩ prog).danger = none) :
+    ∃ s, buildTree fx 2 (.inter dense (.bunion true g1.1 :: .bunion true g2.1 :: gs.map (fun g => Tree.bunion true g.1))) = some s
+      ∧ (levelDS fx 2).doc (implFinal (levelDS fx 2) s prog)
+          = Spec.doc (specFinal ⟨Inter.Common g1.2.2 g2.2.2 (gs.map (·.2.2)), none⟩ prog).rest
+      ∧ ((levelDS fx 2).doc (implFinal (levelDS fx 2) s prog) < TERMINATED →
+          ((levelDS fx 2).score (implFinal (levelDS fx 2) s prog)).1
+            = ((g1 :: g2 :: gs).map (fun g => groupScore g ((levelDS fx 2).doc (implFinal (levelDS fx 2) s prog)))).sum) :=
+  tree2_inter_of_unions_score fx dense g1 g2 gs h1 h2 hs prog hl hnc hnf hnd
+
 /-! ### open statements
 
 Proved above (no longer open): `Lawful` for Intersection (incl. the dense count), BufferedUnionScorer
@@ -827,8 +854,10 @@ leaf and is closed under SUM union, Disjunction, Intersection, Exclude and Requi
 (`C13_scored_*_closed`, packaged over every nesting as `C13_score_composes`). The inner nodes there
 carry their total score function as ghost data (`DS.withGhost`); the formal link from those scorer
 types to the driver's `levelDS` / `buildTree` is written for nesting depth 1 (`C13_tree1_*_score`:
-one scoring node over leaves, where no ghost data is needed); for depth >= 2 it is open (it needs
-"erasing the ghost data commutes with every method of every node kind").
+one scoring node over leaves, where no ghost data is needed) and, at depth 2, for intersections of
+SUM unions (`C13_tree2_intersection_of_unions_score`, through `C13_intersection_erasure`); for the
+other shapes of depth >= 2 it is open (it needs "erasing the ghost data commutes with every method"
+for the other parent kinds, as proved for the intersection).
 
 Hypothesis kept: the children of an Intersection hold documents with doc + BLOCK_WINDOW ≤ TERMINATED
 (`Small`). It mirrors a precondition of the real default `fill_bitset_block(min_doc, ..)`: with
@@ -1015,6 +1044,16 @@ example : noFill [.advance, .seekDanger 7, .doc] := by
   rcases hop with rfl | rfl | rfl <;> exact (fun h => by cases h)
 example : (buildTree {} 1 (.reqopt true (.vec [1, 5, 9] 2) (.bits [5, 7] 8 3))).map
       (fun s => ((levelDS {} 1).score (implFinal (levelDS {} 1) s [.advance])).1) = some 5 := by
+  decide +kernel
+example : GroupOK ([.vec [1, 5] 2, .vec [5, 7] 3], [[1, 5], [5, 7]], [1, 5, 7]) := by
+  refine ⟨All2.cons ⟨rfl, ⟨by decide, by decide⟩, by unfold Small; decide⟩
+    (All2.cons ⟨rfl, ⟨by decide, by decide⟩, by unfold Small; decide⟩ All2.nil), ⟨by decide, by decide⟩, ?_⟩
+  intro x
+  simp only [List.mem_cons, List.mem_nil_iff, or_false, exists_eq_or_imp, exists_eq_left]
+  omega
+example : (buildTree {} 2 (.inter false [.bunion true [.vec [1, 5] 2, .vec [5, 7] 3], .bunion true [.vec [5, 9] 4, .bits [7] 8 1]])).map
+      (fun s => ((levelDS {} 2).doc s, ((levelDS {} 2).score s).1,
+        ((levelDS {} 2).score (implFinal (levelDS {} 2) s [.advance])).1)) = some (5, 9, 4) := by
   decide +kernel
 example : Exclude.ok [[5, 7], [9]] 1 = true ∧ Exclude.ok [[5, 7], [9]] 9 = false := by decide
 example : Vec.V (Vec.init [1, 5, 9] 2) [1, 5, 9] := ⟨rfl, by
